@@ -36,5 +36,7 @@ b70bd5a C14
 3481d56 C14
 baadbf1 C14
 b58547f C20
+d4ed410 C15
+93d3672 C09
 LIST
 git -C $SR checkout -q -- . ; git -C $SR clean -fdq
